@@ -82,6 +82,59 @@ def literal_guard(ctx, t):
     return None
 
 
+def _replace(t, pred, new, depth=0):
+    if not isinstance(t, tuple) or depth > 40:
+        return t
+    if pred(t):
+        return new
+    return tuple(_replace(x, pred, new, depth + 1) if isinstance(x, tuple) else x for x in t)
+
+
+def table_guard(ctx, t):
+    """the table-driven spelling of the literal arms: TABLE.iter().find(|(name, _)| <remaining text starts with name>) over a constant
+    [(literal, weight); N].  Returns dict(entries=[(literal, weight)], ci=<bool>, find=<the find call>) or None."""
+    import re
+    if not (isinstance(t, tuple) and t and t[0] == "discr"):
+        return None
+    f = strip_refs(t[1])
+    if not is_call(f, "Iterator>::find") or len(call_args(f)) != 2:
+        return None
+    it = strip_refs(call_args(f)[0])
+    while isinstance(it, tuple) and it and it[0] == "loc" and len(it) > 2:
+        it = strip_refs(it[2])
+    if not is_call(it, "::iter", "IntoIterator>::into_iter"):
+        return None
+    tab = strip_refs(call_args(it)[0])
+    if not (is_const(tab) and isinstance(tab[2], tuple) and tab[2] and tab[2][0] == "raw"):
+        return None
+    m = re.match(r"^\[\(&str, i64\); (\d+)\]$", tab[1])
+    ents = re.findall(r'\("([A-Za-z0-9_.]*)", (-?\d+)_i64\)', tab[2][1])
+    if not m or len(ents) != int(m.group(1)):
+        return None
+    clo = strip_refs(call_args(f)[1])
+    if not (isinstance(clo, tuple) and clo and clo[0] == "agg" and clo[1] == "closure"):
+        return None
+    rets = [p.end[1] for p in ret_paths(ctx.paths(clo[2]) or [])]
+    if len(rets) != 1:
+        return None
+
+    def entry_name(x):
+        # (*entry).0 of the closure's argument
+        if not (isinstance(x, tuple) and x and x[0] == "field" and x[2] == 0):
+            return False
+        b = x[1]
+        while isinstance(b, tuple) and b and b[0] in ("deref", "ref"):
+            b = b[1]
+        return b == ("param", 2)
+    test = _replace(rets[0], entry_name, ("const", "&str", "\0entry"))
+    for i, cap in enumerate(clo[4]):
+        test = _replace(test, lambda x, i=i: len(x) > 2 and x[0] == "field" and x[2] == i and isinstance(x[1], tuple) and x[1] in (("deref", ("param", 1)), ("param", 1)), cap)
+    g = literal_guard(ctx, test)
+    if g is None or g[0] != "\0entry":
+        return None
+    return dict(entries=[(a, int(b)) for a, b in ents], ci=g[1], find=f, test=test)
+
+
 def tokeniser_state(body, paths):
     """the three state variables by ROLE (not by name): the vector and the revision that end up in the returned
     DeweyVersion{version, pkgrevision}, and the cursor that the loop-exit test compares with the input's length"""
@@ -100,6 +153,66 @@ def tokeniser_state(body, paths):
             if isinstance(t, tuple) and t[0] == "binop" and t[1] in ("Eq", "Ge", "Lt", "Ne") and isinstance(t[2], tuple) and t[2][0] == "havoc" and is_call(t[3], "str>::len", "String::len"):
                 loc["idx"] = t[2][1]
     return loc
+
+
+_NOT_DIGIT_CACHE = {}
+
+
+def _not_digit_closure(ctx, clo):
+    """the closure accepts exactly the characters / bytes that are NOT ASCII digits (tabulated over ASCII + non-ASCII representatives)"""
+    clo = strip_refs(clo)
+    if not (isinstance(clo, tuple) and clo and clo[0] == "agg" and clo[1] == "closure"):
+        return False
+    k = clo[2]
+    if k not in _NOT_DIGIT_CACHE:
+        ps = ctx.paths(k)
+        tbl = char_table(ps, is_param=lambda t: strip_refs(t) == ("param", 2)) if ps else {}
+        _NOT_DIGIT_CACHE[k] = bool(tbl) and all(v is not None for v in tbl.values()) and all(v == (not (c.isascii() and c.isdigit())) for c, v in tbl.items())
+    return _NOT_DIGIT_CACHE[k]
+
+
+def digit_run_of(ctx, t, p=None):
+    """X when t denotes the maximal leading run of ASCII digits of X, in any of the written forms:
+       X.chars().take_while(char::is_ascii_digit).collect::<String>();  &X[..end] with end = the position of the first non-digit
+       (X.bytes().position(..) / X.find(..) with a not-a-digit predicate) or X.len() when there is none"""
+    t0 = content(t)
+    if is_call(t0, "::collect") and call_args(t0):
+        tw = strip_refs(call_args(t0)[0])
+        if is_call(tw, "::take_while") and len(call_args(tw)) == 2 and is_call(strip_refs(call_args(tw)[0]), "str>::chars"):
+            f = call_args(tw)[1]
+            if isinstance(f, tuple) and f and f[0] == "const" and isinstance(f[2], tuple) and f[2][0] == "fn" and f[2][1].endswith("is_ascii_digit"):
+                return content(call_args(strip_refs(call_args(tw)[0]))[0])
+        return None
+    if is_index_call(t0):
+        X = content(call_args(t0)[0])
+        rg = canon_range(call_args(t0)[0], call_args(t0)[1])
+        if rg is None or const_int(rg[0]) != 0:
+            return None
+        hi = rg[1]
+
+        def first_non_digit(src):
+            src = strip_refs(src)
+            if is_call(src, "Iterator>::position", "::position") and len(call_args(src)) == 2:
+                it = strip_refs(call_args(src)[0])
+                while isinstance(it, tuple) and it and it[0] in ("loc", "refmut", "ref"):
+                    it = strip_refs(it[2] if it[0] == "loc" and len(it) > 2 else it[1])
+                return is_call(it, "str>::bytes", "str>::chars") and content(call_args(it)[0]) == X and _not_digit_closure(ctx, call_args(src)[1]) and \
+                    (is_call(it, "str>::bytes") or True)
+            if is_call(src, "str>::find") and len(call_args(src)) == 2:
+                return content(call_args(src)[0]) == X and _not_digit_closure(ctx, call_args(src)[1])
+            return False
+        if hi == LEN:
+            # the whole string: only on the path where no non-digit was found
+            if p is None:
+                return None
+            for c in p.conds():
+                if c.term[0] == "discr" and first_non_digit(c.term[1]) and (c.fact == ("eq", 0) or (c.fact[0] == "ne" and 1 in c.fact[1])):
+                    return X
+            return None
+        h0 = strip_refs(hi)
+        if isinstance(h0, tuple) and h0 and h0[0] == "field" and h0[2] == 0 and isinstance(h0[1], tuple) and h0[1][0] == "downcast" and h0[1][2] == "Some" and first_non_digit(h0[1][1]):
+            return X
+    return None
 
 
 def run(ctx):
@@ -121,6 +234,7 @@ def run(ctx):
             (isinstance(t, tuple) and t[0] == "field" and mentions(t, lambda s: is_call(s, "Chars as std::iter::Iterator>::next")))
 
     rows = {}
+    lit_subjects = []
     order_ok = True
     for p in backs:
         pushes = [e.args[1] for e in p.events if ev_is(e, "Vec::push") and isinstance(e.args[0], tuple) and e.args[0][0] == "refmut" and e.args[0][1][1] == loc["version"]]
@@ -134,12 +248,23 @@ def run(ctx):
         for ci, c in enumerate(p.conds()):
             t = c.term
             truth = c.fact == ("eq", True)
-            if is_call(t, "String::is_empty", "str>::is_empty") and mentions(t, lambda s: is_call(s, "::take_while")) and guard is None:
+            if table_guard(ctx, t) is not None:
+                lit_subjects.append(table_guard(ctx, t)["test"])
+            elif literal_guard(ctx, t) is not None:
+                lit_subjects.append(t)
+            if is_call(t, "String::is_empty", "str>::is_empty") and digit_run_of(ctx, call_args(t)[0], p) is not None and guard is None:
                 if not truth:
                     guard = ("digits", t)
             elif isinstance(t, tuple) and t[0] == "binop" and t[1] == "Eq" and const_char(t[3]) is not None and cur_char(t[2]):
                 if truth and guard is None:
                     guard = ("sep", const_char(t[3]))
+            elif table_guard(ctx, t) is not None:
+                tg = table_guard(ctx, t)
+                if c.fact == ("eq", 1) and guard is None:
+                    guard = ("table", tg)
+                    case_ok = tg["ci"]
+                elif c.fact == ("eq", 0) or (c.fact[0] == "ne" and 1 in c.fact[1]):
+                    lit_tests_false.extend(l for l, _ in tg["entries"])
             elif literal_guard(ctx, t) is not None:
                 lit, cins = literal_guard(ctx, t)
                 if truth and guard is None:
@@ -158,6 +283,25 @@ def run(ctx):
                     guard = ("other", None)
         if guard is None:
             guard = ("other", None)
+        if guard[0] == "table":
+            # one row per table entry: the matched entry's weight is pushed and its literal's length is the advance (first match wins: the order of
+            # the table only matters where one literal is a prefix of another)
+            tg = guard[1]
+            ent = ("deref", ("field", ("downcast", tg["find"], "Some"), 0, "0"))
+
+            def entry_field(x, i):
+                x = strip_refs(x)
+                while isinstance(x, tuple) and x and x[0] == "deref" and not (x == ent):
+                    x = strip_refs(x[1])
+                return isinstance(x, tuple) and x and x[0] == "field" and x[2] == i and strip_refs(x[1]) in (ent, strip_refs(ent[1])) or \
+                    (isinstance(x, tuple) and x and x[0] == "field" and x[2] == i and isinstance(x[1], tuple) and x[1][0] == "deref" and strip_refs(x[1][1]) == strip_refs(ent[1]))
+            sym = len(pushes) == 1 and entry_field(pushes[0], 1) and adv is not None and len(adv) == 1 and is_call(strip_refs(adv[0]), "str>::len") and entry_field(call_args(strip_refs(adv[0]))[0], 0)
+            lits = [l.lower() for l, _ in tg["entries"]]
+            shadow = [(a, b) for i, a in enumerate(lits) for b in lits[i + 1:] if b.startswith(a) or a.startswith(b)]
+            for l, w in tg["entries"]:
+                rows.setdefault(("lit", l), []).append(dict(p=p, pushes=[("const", "i64", w)] if sym and not shadow else pushes, rev=rev if rev_written else None,
+                                                           adv=[("const", "usize", len(l))] if sym and not shadow else adv, case_ok=case_ok, letter_before=letter_seen_at))
+            continue
         rows.setdefault(guard[:1] + ((guard[1],) if guard[0] in ("sep", "lit") else ()), []).append(dict(p=p, pushes=pushes, rev=rev if rev_written else None, adv=adv, case_ok=case_ok, letter_before=letter_seen_at))
 
     def pushed_consts(r):
@@ -174,22 +318,49 @@ def run(ctx):
                 return c.fact == ("eq", 1) or (c.fact[0] == "ne" and 0 in c.fact[1])
         return False
 
-    # digits (with Option/Result combinators evaluated, `parse().unwrap_or(k)` is two rows: parsed / overflowed)
+    def run_parsed(t, r):
+        """X if t contains parse::<i64>(digit run of X)"""
+        for s_ in subterms(t) if isinstance(t, tuple) else []:
+            if is_call(s_, "str>::parse") and "i64" in str(s_[2]):
+                x = digit_run_of(ctx, call_args(s_)[0], r["p"])
+                if x is not None:
+                    return x
+        return None
+
+    def run_len(t, r):
+        """X if t is len(digit run of X)"""
+        t0 = strip_refs(t)
+        if is_call(t0, "String::len", "str>::len"):
+            return digit_run_of(ctx, call_args(t0)[0], r["p"])
+        return None
+
+    def at_cursor(x, off=0):
+        """x is the input from the cursor (+ off) on: s[idx + off ..]"""
+        x = content(x)
+        if not (is_index_call(x) and content(call_args(x)[0]) == ("param", 1)):
+            return False
+        rg = canon_range(call_args(x)[0], call_args(x)[1])
+        if rg is None or rg[1] != LEN:
+            return False
+        ad = addends(rg[0], lambda t: isinstance(t, tuple) and t[0] == "havoc" and t[1] == loc["idx"])
+        return ad is not None and sum(const_int(a) or 0 for a in ad) == off and all(const_int(a) is not None for a in ad)
+
+    # digits (with Option/Result combinators evaluated, `parse().unwrap_or(k)` is two rows: parsed / overflowed; a digit run taken by a
+    # helper that slices at the first non-digit adds the found / not-found alternatives)
     rs = one(("digits",))
-    ok = 1 <= len(rs) <= 2 and sum(1 for r in rs if not parse_failed(r)) == 1
+    ok = 1 <= len(rs) and sum(1 for r in rs if not parse_failed(r)) >= 1
     for r in rs if ok else []:
         pv = r["pushes"]
-        okadv = r["rev"] is None and r["adv"] is not None and len(r["adv"]) == 1 and is_call(r["adv"][0], "String::len", "str>::len") and mentions(r["adv"][0], lambda s: is_call(s, "::take_while"))
+        okadv = r["rev"] is None and r["adv"] is not None and len(r["adv"]) == 1 and run_len(r["adv"][0], r) is not None and at_cursor(run_len(r["adv"][0], r))
         if parse_failed(r):
             ok = ok and okadv and len(pv) == 1 and const_int(pv[0]) is not None
             continue
-        ok = ok and len(pv) == 1 and mentions(pv[0], lambda s: is_call(s, "str>::parse") and "i64" in str(s[2])) and mentions(pv[0], lambda s: is_call(s, "::take_while")) and okadv
-        ok = ok and mentions(pv[0], lambda s: s[0] == "const" and isinstance(s[2], tuple) and s[2][0] == "fn" and s[2][1].endswith("is_ascii_digit"))
+        ok = ok and len(pv) == 1 and run_parsed(pv[0], r) is not None and at_cursor(run_parsed(pv[0], r)) and okadv
     ctx.check(ok, "D1-TOK-TABLE", DV, "row=digits", "digit run -> push parse::<i64>(run), advance len(run)", "the digit-run row is not `push the run's i64 value, advance by the run's length`", fn_span(body))
     # separators
     for s_ in sp["separators"]:
         rs = one(("sep", s_))
-        ok = len(rs) == 1 and pushed_consts(rs[0]) == [0] and rs[0]["rev"] is None and rs[0]["adv"] is not None and [const_int(a) for a in rs[0]["adv"]] == [1]
+        ok = len(rs) >= 1 and all(pushed_consts(r_) == [0] and r_["rev"] is None and r_["adv"] is not None and [const_int(a) for a in r_["adv"]] == [1] for r_ in rs)
         ctx.check(ok, "D1-TOK-TABLE", DV, "row=%r" % s_, "%r -> push 0, advance 1" % s_, "separator %r is tokenised as pushes=%s advance=%s; expected push 0, advance 1" % (s_, [pushed_consts(r) for r in rs], [r["adv"] and [const_int(a) for a in r["adv"]] for r in rs]), fn_span(body))
     extra_sep = sorted(k[1] for k in rows if k[0] == "sep" and k[1] not in sp["separators"])
     ctx.check(not extra_sep, "D1-TOK-TABLE", DV, "no-extra-separators", "only '.' and '_' are separators", "extra separator characters %s" % extra_sep, fn_span(body), nontrivial=False)
@@ -200,37 +371,29 @@ def run(ctx):
             ctx.violation("D1-TOK-TABLE", DV, "literal=%s" % lit, "the modifier %r has no arm in the tokeniser: it is read as single letters, so e.g. 1.0%s1 sorts after 1.0 instead of before/at it (spec weight %d)" % (lit, lit, w), fn_span(body))
             continue
         r = rs[0]
-        ok = len(rs) == 1 and pushed_consts(r) == [w] and r["rev"] is None and r["adv"] is not None and [const_int(a) for a in r["adv"]] == [len(lit)]
+        ok = len(rs) >= 1 and all(pushed_consts(r_) == [w] and r_["rev"] is None and r_["adv"] is not None and [const_int(a) for a in r_["adv"]] == [len(lit)] for r_ in rs)
         ctx.check(ok, "D1-TOK-TABLE", DV, "literal=%s" % lit, "%s -> push %d, advance %d" % (lit, w, len(lit)),
                   "modifier %r is tokenised as pushes=%s advance=%s; expected push %d, advance %d (its own length: a different advance mis-tokenises the rest)" % (lit, pushed_consts(r), r["adv"] and [const_int(a) for a in r["adv"]], w, len(lit)), fn_span(body))
-        ctx.check(r["case_ok"] is True, "D2-TOK-CASE", DV, "literal=%s" % lit, "%r matched ASCII-case-insensitively" % lit,
+        ctx.check(all(r_["case_ok"] is True for r_ in rs), "D2-TOK-CASE", DV, "literal=%s" % lit, "%r matched ASCII-case-insensitively" % lit,
                   "modifier %r is matched case-sensitively: %s is read as letters (pkg_install uses strncasecmp)" % (lit, lit.upper()), fn_span(body))
     # nb
     nb = sp["revision_marker"]
     rs = one(("lit", nb))
-    ok = 1 <= len(rs) <= 2 and sum(1 for r in rs if not parse_failed(r)) == 1
+    ok = 1 <= len(rs) and sum(1 for r in rs if not parse_failed(r)) >= 1
     rs_all = rs
     rs = [r for r in rs if not parse_failed(r)] if ok else rs
     for r in [r for r in rs_all if parse_failed(r)] if ok else []:
         # no digits after nb (or an overflowing run): revision 0, same advance
         ok = ok and not r["pushes"] and r["rev"] is not None and const_int(r["rev"]) == 0 and r["adv"] is not None and len(r["adv"]) == 2 and const_int(r["adv"][0]) == len(nb)
-    if ok:
-        r = rs[0]
+    for r in rs if ok else []:
         rv = r["rev"]
-        desug = rv is not None and not is_call(rv, "Result::unwrap_or", "Result::unwrap_or_default")
-        okrev = rv is not None and mentions(rv, lambda s: is_call(s, "str>::parse") and "i64" in str(s[2])) and mentions(rv, lambda s: is_call(s, "::take_while")) and \
+        src = run_parsed(rv, r) if rv is not None else None
+        # revision := parse::<i64>(digit run right after the marker), 0 when it does not parse (the unevaluated `.unwrap_or(0)` or the evaluated Ok payload)
+        okrev = src is not None and at_cursor(src, len(nb)) and \
             ((is_call(rv, "Result::unwrap_or", "Result::unwrap_or_default") and (len(call_args(rv)) < 2 or const_int(call_args(rv)[1]) == 0))
-             or (desug and len(rs_all) == 2 and isinstance(strip_refs(rv), tuple) and strip_refs(rv)[0] == "field" and strip_refs(rv)[1][0] == "downcast" and strip_refs(rv)[1][2] == "Ok"))
-        # the digit run is taken from the text right after the marker
-        src = [s for s in subterms(rv) if is_index_call(s) and strip_refs(call_args(s)[0]) == ("param", 1)] if rv is not None else []
-        okfrom = False
-        for s in src:
-            rg = agg_variant(call_args(s)[1])
-            if rg and rg[1] in ("Range", "RangeFrom"):
-                lo = rg[2][0]
-                okfrom = okfrom or (isinstance(lo, tuple) and lo[0] == "binop" and lo[1] == "Add" and const_int(lo[3]) == len(nb))
-        okadv = r["adv"] is not None and len(r["adv"]) == 2 and const_int(r["adv"][0]) == len(nb) and is_call(r["adv"][1], "String::len", "str>::len")
-        ok = not r["pushes"] and okrev and okfrom and okadv
+             or (any(parse_failed(x) for x in rs_all) and isinstance(strip_refs(rv), tuple) and strip_refs(rv)[0] == "field" and strip_refs(rv)[1][0] == "downcast" and strip_refs(rv)[1][2] == "Ok"))
+        okadv = r["adv"] is not None and len(r["adv"]) == 2 and const_int(r["adv"][0]) == len(nb) and run_len(r["adv"][1], r) is not None and at_cursor(run_len(r["adv"][1], r), len(nb))
+        ok = ok and not r["pushes"] and okrev and okadv
     ctx.check(ok, "D1-TOK-TABLE", DV, "literal=nb", "nb -> revision := following digits or 0, nothing pushed, advance 2 + digits",
               "the nb row is not `revision := i64 of the digit run right after it (0 if none), push nothing, advance 2 + run length`", fn_span(body))
     if rs:
@@ -243,14 +406,14 @@ def run(ctx):
     ctx.check(not extra_lit, "D1-TOK-TABLE", DV, "no-extra-literals", "no literal outside the spec", "extra literal arms %s" % extra_lit, fn_span(body), nontrivial=False)
     # letter
     rs = one(("letter",))
-    ok = len(rs) == 1
+    ok = len(rs) >= 1 and len({tuple(r_["pushes"]) for r_ in rs}) == 1
     if ok:
         r = rs[0]
         pv = r["pushes"]
-        ok = len(pv) == 2 and const_int(pv[0]) == 0 and r["rev"] is None and r["adv"] is not None and [const_int(a) for a in r["adv"]] == [1]
+        ok = all(len(r_["pushes"]) == 2 and const_int(r_["pushes"][0]) == 0 and r_["rev"] is None and r_["adv"] is not None and [const_int(a) for a in r_["adv"]] == [1] for r_ in rs)
         ctx.check(ok, "D1-TOK-TABLE", DV, "row=letter", "letter -> push 0, f(letter); advance 1", "the letter row is not `push 0, push a value of the letter, advance 1`", fn_span(body))
         allm = set(sp["modifiers"]) | {nb}
-        ctx.check(r["letter_before"] is not None and allm <= r["letter_before"], "D1-TOK-ORDER", DV, "literals-before-letters", "all literal arms are tested before the letter arm",
+        ctx.check(all(r_["letter_before"] is not None and allm <= r_["letter_before"] for r_ in rs), "D1-TOK-ORDER", DV, "literals-before-letters", "all literal arms are tested before the letter arm",
                   "the letter arm is reached without testing %s first: those modifiers would be read as letters" % sorted(allm - (r["letter_before"] or set())), fn_span(body))
         if ok:
             cv = [s for s in subterms(pv[1]) if cur_char(s)]
@@ -283,11 +446,11 @@ def run(ctx):
             if adv is None:
                 oka = False
             elif kind == "digits":
-                oka = len(adv) == 1 and is_call(adv[0], "String::len", "str>::len") and mentions(adv[0], lambda s: is_call(s, "::take_while"))
+                oka = len(adv) == 1 and run_len(adv[0], r) is not None
             elif kind == "sep" or kind == "letter":
                 oka = [const_int(a) for a in adv] == [1]
             elif kind == "lit" and key[1] == nb:
-                oka = len(adv) == 2 and const_int(adv[0]) == len(nb) and is_call(adv[1], "String::len", "str>::len") and mentions(adv[1], lambda s: is_call(s, "::take_while"))
+                oka = len(adv) == 2 and const_int(adv[0]) == len(nb) and run_len(adv[1], r) is not None
             elif kind == "lit":
                 oka = [const_int(a) for a in adv] == [len(key[1])] and key[1].isascii()
             elif kind == "other":
@@ -300,6 +463,10 @@ def run(ctx):
     # the cursor char is the first char of s[idx..]
     cc = [e for p in backs for e in p.calls("Chars as std::iter::Iterator>::next")]
     okc = bool(cc) and all(mentions(e.args[0], lambda s: is_index_call(s) and strip_refs(call_args(s)[0]) == ("param", 1) and mentions(call_args(s)[1], lambda u: u[0] == "havoc" and u[1] == loc["idx"])) for e in cc)
+    # ... and every literal test is made on s[idx..] (a test on any other text decides the row from what is not at the cursor)
+    for t in lit_subjects:
+        sl = [x for x in subterms(t) if is_index_call(x) and content(call_args(x)[0]) == ("param", 1)]
+        okc = okc and bool(sl) and all(at_cursor(x, 0) for x in sl) and not any(content(a) == ("param", 1) for a in call_args(t))
     ctx.check(okc, "D1-CURSOR", DV, "scans-from-cursor", "each step looks at input[idx..]",
               "the scanning step does not examine the INPUT string starting at the cursor (it scans a converted copy, e.g. a Unicode case-folded one, or another position): characters outside the rule can then become components", fn_span(body))
     # result
